@@ -18,7 +18,7 @@ func (ex *Executor) execInstr(st *State, fr *Frame, ins ssa.Instruction) bool {
 			_ = id
 		}
 		if obj := x.Object(); obj != nil {
-			if _, isVar := obj.(*types.Var); isVar {
+			if vr, isVar := obj.(*types.Var); isVar && !vr.IsField() {
 				if old, ok := fr.locals[obj.Name()]; ok && old.isAddr && !x.IsAddr && isFreeVarName(fr.fn, obj.Name()) {
 					// a captured / address-taken variable keeps denoting its cell (current value = load)
 					return true
@@ -186,6 +186,11 @@ func (ex *Executor) execInstr(st *State, fr *Frame, ins ssa.Instruction) bool {
 		// empty domain
 		dom := st.heapGet("M.dom", SAAIB)
 		st.heapSet("M.dom", Store(dom, ref, Sym("emptydom", SAIB)))
+		if !st.seenFact("emptydom") {
+			freshCtr++
+			k := Sym(fmt.Sprintf("k!b%d", freshCtr), SInt)
+			st.assume(Forall([]*Term{k}, Not(Select(Sym("emptydom", SAIB), k))))
+		}
 		fr.vals[x] = Val{T: ref, Ty: x.Type()}
 		return true
 	case *ssa.MakeChan:
